@@ -4,6 +4,8 @@
 //
 //   mt_harness [--mode conc|seq] [--iters K] [--reverse] [--only T] [--full DIR] --out RESULT SCHEDULE
 //     --reverse / --only T (sequential mode): thread programs in reverse order / only the program of thread T
+//     --inst T I (sequential mode): only the call sequence of ONE instance: the one created by operation I of thread T
+//                (that create, every later operation of thread T on the same slot up to and including its destroy)
 //
 // Schedule format (text, one statement per line, tokens separated by blanks, paths without blanks):
 //   C06SCHED 1
@@ -67,6 +69,7 @@ static std::map<int, pthread_barrier_t *> g_bar;
 static bool g_conc = true;
 static bool g_reverse = false;   // sequential mode: run the thread programs in reverse thread order
 static int g_only = -1;          // sequential mode: run only this thread's program ("solo" reference)
+static int g_inst_op = -1;       // with g_only: run only the instance created by this operation index (per-instance reference)
 static std::string g_full;
 
 static void die(const char *fmt, const std::string &a = "")
@@ -527,11 +530,17 @@ static void remove_files(int id)
 static void run_program(Ctx &c, const Program &P)
 {
 	char b[256];
+	int inst_slot = -1;      // --inst: slot of the selected instance while it is alive
 	for (size_t i = 0; i < P.ops.size(); i++) {
 		const Op &op = P.ops[i];
 		if (op.kind == K_BAR) {
 			if (g_conc) pthread_barrier_wait(g_bar[op.a]);
 			continue;   // not an observation
+		}
+		if (g_inst_op >= 0) {
+			if ((int) i == g_inst_op && op.kind == K_CREATE) inst_slot = op.slot;
+			else if (inst_slot < 0 || op.slot != inst_slot) continue;
+			if (op.kind == K_CREATE && (int) i != g_inst_op) { inst_slot = -1; continue; }
 		}
 		Inst &I = c.slots[op.slot];
 		std::string o;
@@ -612,6 +621,7 @@ static void run_program(Ctx &c, const Program &P)
 			I.alive = false;
 			snprintf(b, sizeof b, " rc=%d", rc);
 			o += b;
+			if (g_inst_op >= 0) inst_slot = -1;
 		}
 		c.log += o;
 		c.log += "\n";
@@ -644,6 +654,7 @@ int main(int argc, char **argv)
 		else if (a == "--full" && i + 1 < argc) g_full = argv[++i];
 		else if (a == "--reverse") g_reverse = true;
 		else if (a == "--only" && i + 1 < argc) g_only = atoi(argv[++i]);
+		else if (a == "--inst" && i + 2 < argc) { g_only = atoi(argv[++i]); g_inst_op = atoi(argv[++i]); }
 		else sched = a;
 	}
 	if (out.empty() || sched.empty() || iters < 1) die("usage: mt_harness [--mode conc|seq] [--iters K] [--full DIR] --out RESULT SCHEDULE");
